@@ -68,9 +68,10 @@ MAppendMissing == "appendmissing" \in Acts /\ \E p \in Paths, id \in ChunkIds, h
 MReadBack == "read" \in Acts /\ \E p \in Paths : ReadBack(p) /\ Log(Ev("read", 0, p, "none", "none", NoChunk, "none"))
 MReadHeader == "readhdr" \in Acts /\ \E p \in Paths : ReadHeader(p) /\ Log(Ev("readhdr", 0, p, "none", "none", NoChunk, "none"))
 
-Next == \/ MOpen \/ MHWrite \/ MHRead \/ MHClose
-        \/ MCreate \/ MOverwrite \/ MAppendCompatible \/ MAppendIncompatible \/ MAppendMissing
-        \/ MReadBack \/ MReadHeader
+Next == /\ KeepHist => Len(hist) < MaxDepth          \* export runs: do not generate what will not be printed
+        /\ \/ MOpen \/ MHWrite \/ MHRead \/ MHClose
+           \/ MCreate \/ MOverwrite \/ MAppendCompatible \/ MAppendIncompatible \/ MAppendMissing
+           \/ MReadBack \/ MReadHeader
 
 Spec == Init /\ [][Next]_vars
 
